@@ -490,8 +490,26 @@ fn limb_op(op: &str, a: &[&str]) -> Option<String> {
     })
 }
 
+/// crate-internal `decode_hex_byte([hi, lo]) -> (byte, err)` through `crypto_bigint::verif_hooks`:
+///   c16.hook.decode_hex_byte a b   prints `<byte> <err>` exactly as returned (hex)
+///   c16.hook.hex_pair a b          prints `<byte>` when `err == 0`, else `invalid` (what the callers act on)
+fn hook_op(op: &str, a: &[&str]) -> Option<String> {
+    let [x, y] = a else { return Some(BAD.to_string()) };
+    let (x, y) = (arg!(word(x)), arg!(word(y)));
+    if x > 255 || y > 255 {
+        return Some(BAD.to_string());
+    }
+    let (byte, err) = crypto_bigint::verif_hooks::decode_hex_byte([x as u8, y as u8]);
+    match op {
+        "c16.hook.decode_hex_byte" => Some(format!("{byte:x} {err:x}")),
+        "c16.hook.hex_pair" => Some(if err == 0 { format!("{byte:x}") } else { "invalid".to_string() }),
+        _ => None,
+    }
+}
+
 pub fn dispatch(op: &str, a: &[&str]) -> Option<String> {
     match (op, a) {
+        _ if op.starts_with("c16.hook.") => hook_op(op, a),
         ("c16.u.concat", [l, h, lo, hi]) => concat_dispatch(arg!(dec(l)), arg!(dec(h)), lo, hi),
         ("c16.u.split", [l, h, x]) => split_dispatch(arg!(dec(l)), arg!(dec(h)), x),
         ("c16.u.resize" | "c16.i.resize", [n, t, v]) => resize_dispatch(op, arg!(dec(n)), arg!(dec(t)), v),
